@@ -8,6 +8,8 @@ handle kept open so that accounting at quiescence is exact) and reports the C12 
 
 from __future__ import annotations
 
+from ..collect import guarded
+
 import random
 
 from .. import contracts, memstream
@@ -74,14 +76,14 @@ def shards(tier: str, seed: int) -> list[dict]:
 def run_shard(desc: dict, col) -> None:  # noqa: ANN001
     for i, case in enumerate(all_cases(desc["tier"], desc["seed"])):
         if i % desc["of"] == desc["shard"]:
-            judge(case, col)
+            guarded(col, case, judge, case, col)
 
     for k, v in contracts.EVALS.items():
         col.count("contract_evals:" + k, v)
 
 
 def replay(case: dict, col) -> None:  # noqa: ANN001
-    judge(case, col)
+    guarded(col, case, judge, case, col)
 
 
 def finish(col, tier: str) -> None:  # noqa: ANN001
